@@ -25,6 +25,12 @@ def histories_from_gen(gen_fn, n, seed, max_stages):
     return hs
 
 
+def _rels_of(trace):
+    if not trace or "rel" not in trace:
+        return None
+    return [{k: v for k, v in r.items() if k != "outs"} for r in trace["rel"]]
+
+
 def _jfix(n):
     """node JSON as printed by TLC (md is a list of pairs) -> projection shape"""
     n = dict(n)
@@ -53,7 +59,7 @@ def _run(spec, prop, tier, seed, replay, wd):
 
     if replay:
         body = json.load(open(replay))
-        traces = E.record([(1, body["docs"], body["safes"])], nproc=1)
+        traces = E.record([(1, body["docs"], body["safes"], body.get("rels") or "all")], nproc=1, rel=spec.get("rel"))
         rows, _ = E.validate(prop, traces, wd, workers=1)
         row = rows.get(1)
         print("replay: (model-vs-library, formula on library outcome, formula on model outcome) =", row[:3] if row else "rejected by the specification")
@@ -65,7 +71,15 @@ def _run(spec, prop, tier, seed, replay, wd):
             print(f"  library after stage {j+1}:", json.dumps(E.compact_node(o) if "err" not in o else {"e": o["err"]}))
         if row and row[3]:
             try:
-                for j, m in enumerate(json.loads(row[3])["model"]):
+                det = json.loads(row[3])
+                for side in ("failing_on_library", "failing_on_model"):
+                    for x in det.get(side, []):
+                        r = traces[0]["rel"][x - 1]
+                        print(f"  {side}: relation #{x} {r['name']} keys={r.get('keys')} path={r.get('path')} stage={r.get('stage')} i={r.get('i')} flag={r.get('flag')}")
+                        for y in r["docs"]:
+                            print("      ---\n      " + S.render_doc(y).replace("\n", "\n      ").rstrip())
+                        print("      library outcomes:", json.dumps([E.compact_node(o) if "err" not in o else o for o in r["outs"]]))
+                for j, m in enumerate(det["model"]):
                     mm = m if "err" in m else E.compact_node(_jfix(m))
                     print(f"  model   after stage {j+1}:", json.dumps(mm))
             except Exception as e:  # noqa
@@ -96,7 +110,7 @@ def _run(spec, prop, tier, seed, replay, wd):
         cov["states"] += ex["states"]
         cov["transitions"] += ex["transitions"]
         t0 = time.time()
-        mism = E.replay(uni, behs)
+        mism = E.replay(uni, behs, rel=spec.get("rel"))
         replayed += len(behs)
         cov["configs"][-1]["replay_wall_s"] = round(time.time() - t0, 1)
         cov["configs"][-1]["replay_disagreements"] = len(mism)
@@ -106,7 +120,7 @@ def _run(spec, prop, tier, seed, replay, wd):
         for m in mism:
             docs = [uni[i - 1] for i in m["h"]]
             tid_info[next_tid] = (docs, m["s"], m)
-            mismatch_traces.append((next_tid, docs, m["s"]))
+            mismatch_traces.append((next_tid, docs, m["s"], "all"))
             next_tid += 1
     cov["traces_validated_against_impl"] += replayed
     summary["behaviours_replayed"] = replayed
@@ -117,7 +131,7 @@ def _run(spec, prop, tier, seed, replay, wd):
     hs = histories_from_gen(spec["gen"], n_rand, seed, spec.get("max_stages", 4))
     for tid, docs, safes in hs:
         tid_info[tid] = (docs, safes, None)
-    traces = E.record(hs + mismatch_traces)
+    traces = E.record(hs + mismatch_traces, rel=spec.get("rel"))
     # ---- B2 -------------------------------------------------------------
     as_is = [f["deviation"] for f in M.known_findings() if f["kind"] == "known" and prop in f["properties"]]
     rows, r = E.validate(prop, traces, wd)
@@ -129,6 +143,7 @@ def _run(spec, prop, tier, seed, replay, wd):
     if rejected:
         raise E.MachineryError(f"{len(rejected)} traces were not consumed by the trace specification, first tid {rejected[0]}")
     bad = []
+    traces_by_tid = {t["tid"]: t for t in traces}
     nontrivial = set()
     from collections import Counter
     pvs = Counter()
@@ -139,7 +154,7 @@ def _run(spec, prop, tier, seed, replay, wd):
         if spec["nontrivial"](docs):
             nontrivial.add(E.sha(docs))
         if mv == "violated":
-            path = E.write_replay(prop, docs, safes, {"verdict": list(rows[tid][:3]), "note": "MODEL violates the formula"})
+            path = E.write_replay(prop, docs, safes, {"verdict": list(rows[tid][:3]), "note": "MODEL violates the formula", "rels": _rels_of(t)})
             raise E.MachineryError(f"the specification violates the property formula on recorded history {tid} "
                                    f"(replay={path}): " + json.dumps([S.render_doc(d) for d in docs]))
         pvs[pv] += 1
@@ -175,7 +190,7 @@ def _run(spec, prop, tier, seed, replay, wd):
     bad.sort(key=lambda t: len(json.dumps(tid_info[t][0])))
     for tid in bad:
         docs, safes, m = tid_info[tid]
-        path = E.write_replay(prop, docs, safes, {"verdict": list(rows[tid][:3]), "model": rows[tid][3]})
+        path = E.write_replay(prop, docs, safes, {"verdict": list(rows[tid][:3]), "model": rows[tid][3], "rels": _rels_of(traces_by_tid.get(tid))})
         if path not in seen:
             seen.add(path)
             violations.append(path)
